@@ -162,4 +162,4 @@ def run_shard(acc, shard, nshards, seed, tier):
             cl.append('aborted:' + info['error'])
         return dict(key=c, nontrivial=nt, classes=cl, violations=vios,
                     sample=dict({k: v for k, v in c.items() if k != 'rows'}, rows=c['rows'][:2], trades=info['trades'], resting_fills=info['resting_fills']) if nt else None)
-    runner.hyp_search(acc, cases(), chk, 25 if tier == 'quick' else 1500, seed, tier, known=known, shrink_calls=20, max_shrink_sigs=1)
+    runner.hyp_search(acc, cases(), chk, 45 if tier == 'quick' else 1500, seed, tier, known=known, shrink_calls=20, max_shrink_sigs=1)
